@@ -384,13 +384,15 @@ def _roundtrip(case, out):
     # a strategy registered at run time, after references have already been resolved once: its references resolve too
     late_name = "late-%d" % case["i"]
     la, lb = _strategy(late_name), _strategy(late_name)
-    wb.add_strategy(lb)
     late = []
     for sep in seps[:3]:
         for j in range(3):
             o = _mk_order(la, sep=sep, side=rng.choice(("BACK", "LAY")))
             bet = ex._new_bet("1.23456", o.create_place_instruction(), None)
             late.append((o, bet["betId"]))
+    if case["i"] % 2 == 0:
+        wb.snapshot()  # the references are seen (and cannot be resolved) before their strategy is registered
+    wb.add_strategy(lb)
     wb.snapshot()
     for o, bet_id in late:
         out.rule("roundtrip")
